@@ -392,72 +392,91 @@ def describe_op(api, op):
 
 KNOWN_PAD_KEY = "blockdep-first-job-y-uses-padding-right"
 KNOWN_RSUM_KEY = "blockdep-reduce-sum-ifm-depth-from-ofm"
+KNOWN_LAYOUT_KEY = "blockdep-coordinate-shortcut-ignores-layout"
+FIXES = (("pad", KNOWN_PAD_KEY), ("rsum", KNOWN_RSUM_KEY), ("layout", KNOWN_LAYOUT_KEY))
 
 
 def fixed_blockdeps(arch, ops):
     """For every kernel operation that has a kernel predecessor: the value the real calc_blockdep returns
-    as is, and with each recorded defect repaired from the outside (never by editing /repo):
-      pad   get_first_job_input_volume takes the y start from padding.top: the operation is copied with its
-            `right` field carrying `top` (`right` is read nowhere else inside calc_blockdep)
-      rsum  get_ifm_ofm_block_depth returns the IFM depth for REDUCE_SUM (the operation reads every channel)"""
+    as is, and with every subset of the recorded defects repaired from the outside (never by editing /repo):
+      pad     get_first_job_input_volume takes the y start from padding.top: the operation is copied with its
+              `right` field carrying `top` (`right` is read nowhere else inside calc_blockdep)
+      rsum    get_ifm_ofm_block_depth returns the IFM depth for REDUCE_SUM (the operation reads every channel)
+      layout  intersects() takes the coordinate shortcut only if layout, element size and strides agree as well
+    Result: {op index: {"prev": index, "": emitted, "pad": …, "pad+rsum": …, …}}"""
     import copy
+    import itertools
 
     from ethosu.vela import api
     from ethosu.vela import register_command_stream_util as rcsu
 
-    orig = rcsu.get_ifm_ofm_block_depth
+    orig_depth = rcsu.get_ifm_ofm_block_depth
+    orig_inter = rcsu.intersects
 
-    def patched(arch_, npu_op):
+    def depth_fixed(arch_, npu_op):
         if isinstance(npu_op, api.NpuPoolingOperation) and npu_op.sub_op_type == api.NpuPoolingOp.REDUCE_SUM:
             return npu_op.ifm.shape.depth
-        return orig(arch_, npu_op)
+        return orig_depth(arch_, npu_op)
 
-    def bd(prev, o, rsum):
-        rcsu.get_ifm_ofm_block_depth = patched if rsum else orig
+    def inter_fixed(ifm, is_, ie, prev_ofm, os_, oe):
+        same_view = (ifm.layout == prev_ofm.layout and ifm.data_type.size_in_bytes() == prev_ofm.data_type.size_in_bytes()
+                     and rcsu.get_strides(ifm) == rcsu.get_strides(prev_ofm))
+        if ifm.shape == prev_ofm.shape and ifm.tiles == prev_ofm.tiles and not same_view:
+            a = rcsu.get_address_ranges_for_area(ifm, is_, ie)
+            b = rcsu.get_address_ranges_for_area(prev_ofm, os_, oe)
+            return rcsu.range_lists_overlap(a, b)
+        return orig_inter(ifm, is_, ie, prev_ofm, os_, oe)
+
+    def bd(prev, o, fixes):
+        o2 = o
+        if "pad" in fixes and o.padding is not None and o.padding.right != o.padding.top:
+            o2 = copy.copy(o)
+            o2.padding = api.NpuPadding(top=o.padding.top, left=o.padding.left, bottom=o.padding.bottom, right=o.padding.top)
+        rcsu.get_ifm_ofm_block_depth = depth_fixed if "rsum" in fixes else orig_depth
+        rcsu.intersects = inter_fixed if "layout" in fixes else orig_inter
         try:
-            return int(min(rcsu.calc_blockdep(arch, prev, o), arch.max_blockdep))
+            return int(min(rcsu.calc_blockdep(arch, prev, o2), arch.max_blockdep))
         finally:
-            rcsu.get_ifm_ofm_block_depth = orig
+            rcsu.get_ifm_ofm_block_depth = orig_depth
+            rcsu.intersects = orig_inter
 
+    names = [n for n, _ in FIXES]
+    subsets = [c for r in range(len(names) + 1) for c in itertools.combinations(names, r)]
     out = {}
     prev, prev_i = None, None
     for i, o in enumerate(ops):
         if isinstance(o, api.NpuDmaOperation):
             continue
         if prev is not None:
-            o2 = o
-            if o.padding is not None and o.padding.right != o.padding.top:
-                o2 = copy.copy(o)
-                o2.padding = api.NpuPadding(top=o.padding.top, left=o.padding.left, bottom=o.padding.bottom, right=o.padding.top)
-            out[str(i)] = {"prev": prev_i, "emitted": bd(prev, o, False), "pad": bd(prev, o2, False),
-                           "rsum": bd(prev, o, True), "both": bd(prev, o2, True)}
+            d = {"prev": prev_i}
+            for sub in subsets:
+                d["+".join(sub)] = bd(prev, o, sub)
+            out[str(i)] = d
         prev, prev_i = o, i
     return out
 
 
 def classify_blockjobs(msg, fixed):
     """Known-finding keys that explain *every* overlap reported in a `blockjobs=` answer, or None.
-    An overlap (operation c, forward job f, job k from the end of the previous kernel) is explained by a defect
-    when calc_blockdep with that defect repaired returns a value <= f + k, i.e. forbids the overlap."""
+    An overlap (operation c, forward job f, job k from the end of the previous kernel) is explained by a set of
+    defects when calc_blockdep with exactly those defects repaired returns a value <= f + k, i.e. forbids the
+    overlap; the smallest such set is taken."""
     import re
 
     found = re.findall(r"op_(\d+)_BLOCKDEP_(\d+):_job_(\d+)_may_run_with_job_(\d+)_from_the_end_of_op_(\d+):", msg)
     if not found:
         return None
+    keymap = dict(FIXES)
     keys = set()
     for c, _bd, f, k, p in found:
         fx = fixed.get(str(int(c)))
         if fx is None or fx["prev"] != int(p):
             return None
         lim = int(f) + int(k)
-        if fx["pad"] <= lim:
-            keys.add(KNOWN_PAD_KEY)
-        elif fx["rsum"] <= lim:
-            keys.add(KNOWN_RSUM_KEY)
-        elif fx["both"] <= lim:
-            keys.update((KNOWN_PAD_KEY, KNOWN_RSUM_KEY))
-        else:
+        cands = sorted((s for s in fx if s not in ("prev", "") and fx[s] <= lim), key=lambda s: (s.count("+"), s))
+        if not cands:
             return None
+        keys.update(keymap[n] for n in cands[0].split("+"))
     return keys
 
 
